@@ -18,6 +18,7 @@ if REPO not in sys.path:
 os.environ.setdefault("FUZZYLITE_PYFUZZYLITE_VERIF", "1")
 
 import logging  # noqa: E402
+import warnings  # noqa: E402
 
 import numpy as np  # noqa: E402
 
@@ -28,6 +29,8 @@ if _where != os.path.realpath(REPO):
     raise SystemExit(f"BROKEN-CHECK: fuzzylite imported from {_where}, expected {REPO}")
 
 fl.settings.logger.setLevel(logging.CRITICAL)
+# numpy overflow/underflow warnings (exp of large arguments) are expected at +-1e6 / +-inf evaluation points
+warnings.filterwarnings("ignore", category=RuntimeWarning)
 
 # pristine values of the process-global settings singleton
 PRISTINE = dict(
